@@ -47,6 +47,7 @@ GARBAGE = ["", "2", "tru", "maybe", " true", "none", "-1", "t"]
 GRAPH_FNS = [
     "avc", "avc_acyclic", "division_connected", "single_cycle", "single_path", "crossable", "cycle_crossable", "with_borders",
     "avc_grid", "avc_grid_acyclic", "with_borders_grid", "single_cycle_grid", "single_path_grid", "division_connected_grid",
+    "avc_list", "single_cycle_list", "division_connected_roots",
 ]
 RECIPIENT = {"z3": "z3", "sugar": "subprocess", "sugar_extended": "subprocess", "csugar": "pycsugar", "enigma_csp": "enigma_csp", "cspuz_core": "cspuz_core"}
 MOD_OF = {"z3": "z3", "csugar": "pycsugar", "enigma_csp": "enigma_csp", "cspuz_core": "cspuz_core"}
@@ -137,7 +138,7 @@ def generate(rng, tier, index):
         else:
             fn = rng.choice(GRAPH_FNS)
             flag = rng.choice([None, None, True, False])
-            if fn in ("division_connected", "division_connected_grid"):
+            if fn.startswith("division_connected"):
                 flag = None  # the public function has no per-call override
             ops.append({"op": "graph", "fn": fn, "flag": flag, "same_solver": rng.random() < 0.3})
     return {"prop": ID, "env": env, "installed": installed, "ops": ops}
@@ -344,6 +345,12 @@ def _call_graph(cspuz, fn, flag, solver=None):
         G.active_edges_connected_crossable(s, cspuz.BoolGridFrame(s, 1, 1), **kw)
     elif fn == "cycle_crossable":
         G.active_edges_single_cycle_crossable(s, cspuz.BoolGridFrame(s, 1, 1), **kw)
+    elif fn == "avc_list":
+        G.active_vertices_connected(s, list(s.bool_array(4)), graph=g, **kw)
+    elif fn == "single_cycle_list":
+        G.active_edges_single_cycle(s, list(s.bool_array(4)), g, **kw)
+    elif fn == "division_connected_roots":
+        G.division_connected(s, s.int_array(4, 0, 1), 2, graph=g, roots=[0, None], allow_empty_group=True)
     elif fn == "avc_grid":
         G.active_vertices_connected(s, s.bool_array((2, 2)), **kw)
     elif fn == "avc_grid_acyclic":
@@ -482,6 +489,13 @@ def run(sc) -> RunResult:
                             res.violate("C20/unexpected-exception", f"op#{n_op} Config(infer_from_env={op['infer']}) raised ValueError({got_err}) for env {env}")
                     else:
                         _compare_cfg(res, n_op, f"Config(infer_from_env={op['infer']})", c, want, env, installed)
+                        # a second Config object is its own object: scribbling on it must not reach cspuz.config
+                        for f_, junk in (("backend_path", "/probe/only"), ("use_graph_primitive", not want["use_graph_primitive"]), ("use_graph_division_primitive", not want["use_graph_division_primitive"])):
+                            try:
+                                setattr(c, f_, junk)
+                            except Exception:
+                                pass
+                        _compare_cfg(res, n_op, "scribbling on a second Config object", cspuz.config, cfg, env, installed)
                     continue
                 if k == "new_solver":
                     # Solver objects made now and used by later calls / graph constraints: whatever is
